@@ -156,6 +156,22 @@ func (s *Spec) Validate() error {
 	return nil
 }
 
+// ResiliencePolicyRefs implements filters.ResiliencePolicyReferrer.
+func (s *Spec) ResiliencePolicyRefs() (retry []string, circuitBreaker []string) {
+	for _, pool := range s.Pools {
+		if pool == nil {
+			continue
+		}
+		if pool.RetryPolicy != "" {
+			retry = append(retry, pool.RetryPolicy)
+		}
+		if pool.CircuitBreakerPolicy != "" {
+			circuitBreaker = append(circuitBreaker, pool.CircuitBreakerPolicy)
+		}
+	}
+	return
+}
+
 // Name returns the name of the Proxy filter instance.
 func (p *Proxy) Name() string {
 	return p.spec.Name()
